@@ -23,6 +23,7 @@ type c11Params struct {
 	Renew    string `json:"renew"`    // "", "call" (explicit Renew in the window), "fails" (the renewal is never answered and times out before the senders run)
 	Eager    bool   `json:"prompt_peer"` // the side that is not judged answers promptly and is not part of the interleaving
 	Delay    bool   `json:"delay_bounded"`
+	Cancel   bool   `json:"cancel"` // sender 1's context is cancelled by another thread inside the window
 }
 
 type c11Obs struct {
@@ -92,7 +93,14 @@ func c11Body(p c11Params) func() {
 				if p.BigBytes > 0 && i == 2 && p.Side == "client" {
 					req = bigWriteReq(uint32(i), p.BigBytes)
 				}
-				err := sc.SendRequest(ctx, req, nil, func(r ua.Response) error { return nil })
+				sctx := ctx
+				if p.Cancel && i == 1 {
+					var cancel context.CancelFunc
+					sctx, cancel = context.WithCancel(ctx)
+					wg.Add(1)
+					go func() { defer wg.Done(); cancel() }()
+				}
+				err := sc.SendRequest(sctx, req, nil, func(r ua.Response) error { return nil })
 				if err != nil {
 					obs.errs = append(obs.errs, fmt.Sprintf("sender %d: %v", i, err))
 				}
@@ -116,6 +124,9 @@ func c11Check(p c11Params) func(x *vrt.Exec) (string, string, string) {
 	// signatures name the scenario shape, so that the same symptom reached by a
 	// different combination of senders/renewal is a different finding
 	tag := fmt.Sprintf("c11/%s/senders=%d/multichunk=%v/renew=%s", p.Side, p.Senders, p.BigBytes > 0, p.Renew)
+	if p.Cancel {
+		tag += "/cancel"
+	}
 	return func(x *vrt.Exec) (string, string, string) {
 		if out, sig, detail, failed := fail(x); failed {
 			return out, sig, detail
@@ -176,7 +187,7 @@ func c11Scenarios(thorough bool) []driver.Scenario {
 	var out []driver.Scenario
 	add := func(p c11Params, bound, maxExec int) {
 		out = append(out, driver.Scenario{
-			Name:   fmt.Sprintf("c11/%s/senders=%d/big=%d/renew=%s/prompt_peer=%v/delay_bounded=%v", p.Side, p.Senders, p.BigBytes, p.Renew, p.Eager, p.Delay),
+			Name:   fmt.Sprintf("c11/%s/senders=%d/big=%d/renew=%s/prompt_peer=%v/delay_bounded=%v/cancel=%v", p.Side, p.Senders, p.BigBytes, p.Renew, p.Eager, p.Delay, p.Cancel),
 			Params: p, Cfg: vrt.Config{Horizon: int64(60 * time.Second), DelayBounded: p.Delay},
 			Body: c11Body(p), Check: c11Check(p), Bound: bound, MaxExec: maxExec, NeedsConflict: true,
 		})
@@ -189,11 +200,14 @@ func c11Scenarios(thorough bool) []driver.Scenario {
 		add(c11Params{Side: "server", Senders: 2, BigBytes: 20000}, 1, 0)
 		add(c11Params{Side: "server", Senders: 3}, 1, 0)
 		add(c11Params{Side: "client", Senders: 2, Renew: "fails", Delay: true}, 2, 0)
+		add(c11Params{Side: "client", Senders: 2, Cancel: true, Delay: true}, 2, 0)
+		add(c11Params{Side: "client", Senders: 2, BigBytes: 20000, Cancel: true, Delay: true}, 1, 0)
 	} else {
 		add(c11Params{Side: "client", Senders: 2, Renew: "call", Delay: true}, 2, 0)
 		add(c11Params{Side: "client", Senders: 2, BigBytes: 20000, Renew: "call", Delay: true}, 2, 0)
 		add(c11Params{Side: "server", Senders: 2, BigBytes: 20000, Delay: true}, 2, 0)
 		add(c11Params{Side: "client", Senders: 2, Renew: "fails", Delay: true}, 1, 0)
+		add(c11Params{Side: "client", Senders: 2, Cancel: true, Delay: true}, 2, 0)
 	}
 	return out
 }
